@@ -379,15 +379,7 @@ func (r *WordRenderer) renderCodeBlock(node ast.Node) (ast.WalkStatus, error) {
 
 	// 为每行代码创建一个段落，保持换行和缩进
 	for _, line := range lines {
-		// 处理空行
-		if strings.TrimSpace(line) == "" {
-			para := r.doc.AddParagraph(" ") // 空行用空格表示
-			para.SetStyle("CodeBlock")
-			r.applyCodeBlockFormatting(para)
-			continue
-		}
-
-		// 创建代码行段落
+		// 创建代码行段落（空行和只含空白的行也原样保留，这样再导出时代码块的每一行都不变）
 		para := r.doc.AddParagraph(line)
 		para.SetStyle("CodeBlock")
 		r.applyCodeBlockFormatting(para)
